@@ -1,12 +1,14 @@
 from __future__ import annotations
 from .core import Pattern
+from .chance import PStochasticPattern
 import random
 
 class LSystem:
-    def __init__(self, rule: str = "N[-N++N]-N", seed="N"):
+    def __init__(self, rule: str = "N[-N++N]-N", seed="N", rng=random):
         self.rule = rule
         self.seed = seed
         self.string = seed
+        self.rng = rng
 
         self.reset()
 
@@ -43,7 +45,7 @@ class LSystem:
             elif token == '+':
                 self.state += 1
             elif token == '?':
-                self.state += random.choice([-1, 1])
+                self.state += self.rng.choice([-1, 1])
             elif token == '[':
                 self.stack.append(self.state)
             elif token == ']':
@@ -51,10 +53,11 @@ class LSystem:
 
         raise StopIteration
 
-class PLSystem(Pattern):
+class PLSystem(PStochasticPattern):
     """ PLSystem: integer sequence derived from Lindenmayer systems """
 
     def __init__(self, rule: str, depth: int = 3, loop: bool = True):
+        super().__init__()
         self.rule = rule
         self.depth = depth
         self.loop = loop
@@ -65,7 +68,8 @@ class PLSystem(Pattern):
         return ("PLSystem(%s, %s, %s)" % (repr(self.rule), self.depth, self.loop))
 
     def reset(self):
-        self.lsys = LSystem(self.rule, "N")
+        super().reset()
+        self.lsys = LSystem(self.rule, "N", rng=self.rng)
         self.lsys.iterate(self.depth)
 
     def __next__(self):
